@@ -182,6 +182,60 @@ Theorem C12_bufsize_guards_present :
 Proof. exact (f_equal (map (fun x => (snd (fst x), snd x))) (proj1 guards_present_bufsize)). Qed.
 Print Assumptions C12_bufsize_guards_present.
 
+(* TIME is an input of the peer: for EVERY duration (in ms) between a chunk and its
+   acknowledgement the step of the buffer size is defined - the divisor chunkTime/time.Second
+   is never zero - because the shrink threshold read from the source is at least a second ... *)
+Theorem C12_ack_step_total : forall maxbuf bs len ms, gd_bufsize_step_ms Consts.guards_ack_slow_ms maxbuf bs len ms <> None.
+Proof. exact ack_step_total. Qed.
+Print Assumptions C12_ack_step_total.
+
+Theorem C12_ack_step_total_thr : forall thr maxbuf bs len ms, 1000 <= thr -> gd_bufsize_step_ms thr maxbuf bs len ms <> None.
+Proof. exact ack_step_total_thr. Qed.
+Print Assumptions C12_ack_step_total_thr.
+
+(* ... and a whole run over (length, duration) pairs never faults and stays within the bound *)
+Theorem C12_capacities_ms_bounded : forall maxbuf l, maxbuf <= Consts.guards_bufsize_clamp ->
+  exists cs, gd_capacities_ms maxbuf l = Some cs /\
+  Forall (fun c => Consts.guards_min_chunk <= c <= Z.max Consts.guards_init_buffer_size maxbuf) cs.
+Proof. exact capacities_ms_bounded. Qed.
+Print Assumptions C12_capacities_ms_bounded.
+
+(* with the shrink threshold at the fast threshold an acknowledgement 0.7 s after its chunk divides by zero *)
+Theorem C12_ack_step_threshold_refuted : exists maxbuf bs len ms, 0 <= ms /\
+  gd_bufsize_step_ms Consts.guards_ack_fast_ms maxbuf bs len ms = None.
+Proof. exact ack_step_threshold_refuted. Qed.
+Print Assumptions C12_ack_step_threshold_refuted.
+
+(* the archive writer: whatever entry headers arrive (directory or not, any announced size) and
+   however many calls of Write follow each, no call reaches the write through a nil file - given
+   the nil check the translator finds in front of it; without it a directory entry announcing
+   5 bytes does *)
+Theorem C12_archive_write_total : forall hs left has_file, ~ In GdAwNilDeref (gd_aw_ways true left has_file hs).
+Proof. exact aw_ways_total. Qed.
+Print Assumptions C12_archive_write_total.
+
+Theorem C12_archive_nilcheck_refuted : In GdAwNilDeref (gd_aw_ways false 0 false [(true, 5, 1%nat)]).
+Proof. exact aw_nilcheck_refuted. Qed.
+Print Assumptions C12_archive_nilcheck_refuted.
+
+(* "#TYPE:payload": with the guard of the source (index of the colon >= 1) cutting the line never
+   panics, for every line; with `idx < 0` the line ":wq" does *)
+Theorem C12_line_split_total : forall line, gd_line_split 1 line <> GdSplitPanic.
+Proof. exact line_split_total. Qed.
+Print Assumptions C12_line_split_total.
+
+Theorem C12_line_split_weak_guard_refuted : gd_line_split 0 [58; 119; 113]%N = GdSplitPanic.
+Proof. exact line_split_weak_guard_refuted. Qed.
+Print Assumptions C12_line_split_weak_guard_refuted.
+
+Theorem C12_scan_guards_present :
+  Skel_guards.archive_file_write = [("archiveFileWriter.Write", "f.file.Write(p[:int(m)])", ["f.left > 0 && f.file != nil"])]%string /\
+  Skel_guards.line_split_sites =
+  [("decodeRelayBufferString", "line[1:idx]", ["!(idx < 1)"]); ("trzszTransfer.recvCheck", "line[1:idx]", ["!(idx < 1)"]);
+   ("trzszTransfer.recvCheckV2", "line[1:idx]", ["!(idx < 1)"])]%string.
+Proof. exact (conj guards_present_archive_write guards_present_line_split). Qed.
+Print Assumptions C12_scan_guards_present.
+
 (* the code before the fixes violates the bound: the confirmed inputs *)
 Theorem C12_data_unfixed_refuted : exists c n, cfg_ok c = true /\ guard_unfixed FDataSizeV2 c 0 n = true /\
   amount_unfixed FDataSizeV2 c 0 n > bound FDataSizeV2 c /\
